@@ -172,12 +172,13 @@ def deep_recursion(c, asan):
     """Known finding: rendering (and destroying) a tag tree recurses once per nesting level."""
     inp = os.path.join(c.out, "deepstack.txt")
     with open(inp, "w") as f:
-        for text in ('<if case="1">' * 40000 + "x" + "</if>" * 40000, '<loop set="v" value="w">' * 40000 + "x" + "</loop>" * 40000):
+        for text in ('<if case="1">' * 40000 + "x" + "</if>" * 40000, '<loop set="v" value="w">' * 40000 + "x" + "</loop>" * 40000,
+                     "{math:" + "(" * 12000 + "1" + ")" * 12000 + "}"):       # (the expression parser recurses once per parenthesis)
             f.write(",".join(str(ord(ch)) for ch in text) + "\t" + ",".join(str(ord(ch)) for ch in '{"v":[[1]]}') + "\t" + '{"fam":"deepstack","ast":null,"doc":{"t":"Z"}}' + "\n")
     out = os.path.join(c.out, "deepstack.ndjson")
     start = 0
     n = 0
-    for attempt in range(3):
+    for attempt in range(4):
         rc, o, err = c.run(["bash", "-c", 'ulimit -s 8192; exec "$0" render "$1" "$2" "$3"', asan, inp, out, str(start)], timeout=600)
         lines = o.strip().splitlines()
         if lines and lines[-1] == "DONE":
@@ -195,7 +196,7 @@ def deep_recursion(c, asan):
                     {"kind": "crash", "case": int(m.group(2)), "stderr": (err or "")[-2000:]})
         n += 1
         start = int(m.group(2)) + 1
-    c.count(n_eval=2, validated=2)
+    c.count(n_eval=3, validated=3)
     c.stage("deep-recursion", cases=2, crashes=n)
     for q in (inp, out):
         if os.path.exists(q):
